@@ -114,7 +114,7 @@ def gen_case(seed, run, tier):
     rs = core.stream(seed, "c02/swarm", run)
     rf = core.stream(seed, "c02/faults", run)
     variant = rs.choice(["single", "single", "single", "multi", "multi", "wrong_side", "wrong_side", "missing_component",
-                         "superfluous", "full_rank", "dup_spectator", "dup_shared", "fractional", "electron"])
+                         "superfluous", "full_rank", "dup_spectator", "dup_shared", "fractional", "electron", "empty_species"])
     if rs.random() < 0.05:
         variant = "big"  # more than ten species: two-digit variable names in the integer program
     elif rs.random() < 0.06:
@@ -145,7 +145,7 @@ def gen_case(seed, run, tier):
         break
     else:
         raise core.HarnessError("could not generate a balanced case")
-    formula_mode = rs.random() < 0.65 and variant not in ("fractional", "electron")
+    formula_mode = rs.random() < 0.65 and variant not in ("fractional", "electron", "empty_species")
     species = []
     used = set()
     for i, c in enumerate(comps):
@@ -257,6 +257,9 @@ def gen_case(seed, run, tier):
         i = rw.randrange(len(species))
         div = rw.choice([2.0, 2.0, 4.0, 5.0, 10.0, 10.0, 8.0])
         species[i]["comp"] = {z: (v / div if z != "0" else v) for z, v in species[i]["comp"].items()}
+    elif variant == "empty_species":
+        species.append({"key": "hv" if not formula_mode else "S%d" % n, "comp": {}})
+        (reac if rw.random() < 0.5 else prod).append(species[-1]["key"])
     elif variant == "electron":
         # add a charge-only species (the electron) and re-balance charge with it
         species.append({"key": "e-", "comp": {"0": -1}})
@@ -305,6 +308,8 @@ def gen_case(seed, run, tier):
         case["witness"] = {sp["key"]: xi for sp, xi in zip(species, x)}
     if rs.random() < (0.5 if subs == "factory" else 0.15) and variant != "big":
         case["cold_decoy"] = True
+    if subs == "explicit" and rs.random() < 0.5:
+        case["share_mapping"] = True
     return case
 
 
@@ -360,7 +365,7 @@ def truth_for(case, reac, prod):
 # ----------------------------------------------------------------------------- one call
 
 
-def _mk_args(case, call):
+def _mk_args(case, call, shared=None):
     from chempy import Substance
 
     reac, prod = list(case["reac"]), list(case["prod"])
@@ -383,9 +388,15 @@ def _mk_args(case, call):
             "named": lambda: iter(sympy.symbols("a0:40")),
         }[call["psym"]]()
     if case["subs"] == "explicit":
-        kw["substances"] = OrderedDict(
-            (s["key"], Substance(s["key"], composition={int(z): v for z, v in s["comp"].items() if v}))
-            for s in case["species"])
+        if shared is not None and "mapping" in shared:
+            kw["substances"] = shared["mapping"]  # the caller keeps ONE mapping and passes it to every call
+        else:
+            kw["substances"] = OrderedDict(
+                (s["key"], Substance(s["key"], composition={int(z): v for z, v in s["comp"].items() if v}))
+                for s in case["species"])
+            if shared is not None:
+                shared["mapping"] = kw["substances"]
+                shared["snapshot"] = [(k, sorted(v.composition.items())) for k, v in kw["substances"].items()]
     elif case["subs"] == "string":
         kw["substances"] = " ".join(s["key"] for s in case["species"])
     elif case["subs"] == "factory":
@@ -394,12 +405,12 @@ def _mk_args(case, call):
     return r, p, kw
 
 
-def do_call(case, call, faults):
+def do_call(case, call, faults, shared=None):
     """Run one balance_stoichiometry call under the given fault plan.  Returns a record."""
     from chempy import balance_stoichiometry
 
     cbc.WORLD.reset({f["inv"]: f for f in faults})
-    r, p, kw = _mk_args(case, call)
+    r, p, kw = _mk_args(case, call, shared)
     rec = {"mode": call["mode"], "dup": bool(call.get("dup")), "faults": [dict(f) for f in faults], "psym": call.get("psym")}
     with warnings.catch_warnings():
         warnings.simplefilter("ignore")
@@ -416,6 +427,14 @@ def do_call(case, call, faults):
     if res is not None:
         rec["outcome"] = "ok"
         rec["_res"] = res
+    if shared is not None and "mapping" in shared:
+        now = [(k, sorted(v.composition.items())) for k, v in shared["mapping"].items()]
+        # entries removed or compositions altered corrupt the caller's data for every later call; additions are tolerated
+        nowd = dict(now)
+        rec["caller_mapping_changed"] = any(k not in nowd or nowd[k] != comp for k, comp in shared["snapshot"])
+        if rec["caller_mapping_changed"]:
+            rec["caller_mapping_detail"] = "%s -> %s" % ([k for k, _ in shared["snapshot"]], [k for k, _ in now])
+            shared.pop("mapping")  # report once; next call builds a new one
     return rec
 
 
@@ -713,6 +732,7 @@ _STALE_PRIMER = ("Optimal - objective value 8.00000000\n" + "".join(
 def execute(case):
     hist, viols, stats, states, outcome = [], [], {}, set(), []
     volatile = [False]
+    shared = {}
     # the only state the seam keeps between invocations; reset so that a case is a pure function of itself.
     # primed with a well-formed solution file "left over from another problem" (all variables 1)
     cbc.WORLD.prev_sols = [_STALE_PRIMER]
@@ -721,14 +741,22 @@ def execute(case):
         stats[k] = stats.get(k, 0) + n
 
     def one(call, faults):
-        rec = do_call(case, call, faults)
+        rec = do_call(case, call, faults, shared if case.get("share_mapping") else None)
+        if rec.get("caller_mapping_changed"):
+            explicit = {k: case[k] for k in ("property", "variant", "species", "reac", "prod", "container", "subs", "witness", "cold_decoy", "share_mapping") if k in case}
+            explicit["calls"] = [dict(call, faults=[dict(f) for f in faults])]
+            explicit["enumerate"] = None
+            v = core.violation("caller_mapping_mutated", "the substances mapping handed to balance_stoichiometry was changed by the call: %s" % rec.get("caller_mapping_detail"),
+                               {"mode": call["mode"], "dup": bool(call.get("dup"))})
+            v["case"] = explicit
+            viols.append(v)
         hung = any(x.get("solver_hung_killed") for x in rec["inv_log"])
         if hung:
             bump("probe:solver_hung_and_was_killed")
         faulted = bool(faults) or hung  # a solver the simulator had to kill is a fault, whoever caused it
         vs = judge(case, call, rec, faulted)
         for v in vs:
-            explicit = {k: case[k] for k in ("property", "variant", "species", "reac", "prod", "container", "subs", "witness", "cold_decoy") if k in case}
+            explicit = {k: case[k] for k in ("property", "variant", "species", "reac", "prod", "container", "subs", "witness", "cold_decoy", "share_mapping") if k in case}
             explicit["calls"] = [dict(call, faults=[dict(f) for f in faults])]
             if not faults and call.get("cold"):
                 explicit["calls"][0]["cold"] = [dict(f) for f in call["cold"]]
@@ -824,7 +852,7 @@ def execute(case):
                 if t is not None and t["d"] == 1:
                     same = first["result"] == second.get("result")
             if not same:
-                explicit = {k: case[k] for k in ("property", "variant", "species", "reac", "prod", "container", "subs", "witness", "cold_decoy") if k in case}
+                explicit = {k: case[k] for k in ("property", "variant", "species", "reac", "prod", "container", "subs", "witness", "cold_decoy", "share_mapping") if k in case}
                 explicit["calls"] = [dict(call, faults=[], after="decoy")]
                 explicit["enumerate"] = None
                 v = core.violation("history_dependence", "the same call gave %s first and %s after a decoy call / injected faults" % (
